@@ -333,6 +333,19 @@ func (c *TermCtx) Eq(a, b *Term) *Term {
 	if a.isConst() && b.isConst() {
 		return c.Bool(a.cv() == b.cv())
 	}
+	if a.op == opZext && b.op == opZext && a.args[0].w == b.args[0].w {
+		return c.Eq(a.args[0], b.args[0])
+	}
+	if a.op == opZext && b.isConst() {
+		a, b = b, a
+	}
+	if b.op == opZext && a.isConst() {
+		in := b.args[0]
+		if a.cv() > mask(in.w) {
+			return c.tFalse
+		}
+		return c.Eq(in, c.Const(in.w, a.cv()))
+	}
 	if a.w == 0 {
 		if a.isConst() {
 			a, b = b, a
@@ -500,6 +513,17 @@ func (c *TermCtx) bin(op Op, a, b *Term) *Term {
 		if a == b {
 			return c.Bool(op == opBvULe || op == opBvSLe)
 		}
+		// comparisons of zero-extended operands happen at the narrow width (unsigned; a
+		// zero-extended value is non-negative, so signed comparison agrees when it gains a bit)
+		if a.op == opZext && b.op == opZext && a.args[0].w == b.args[0].w && a.args[0].w < w {
+			uop := op
+			if op == opBvSLt {
+				uop = opBvULt
+			} else if op == opBvSLe {
+				uop = opBvULe
+			}
+			return c.bin(uop, a.args[0], b.args[0])
+		}
 	case opBvAdd, opBvOr, opBvXor:
 		if a.isConst() && a.cv() == 0 {
 			return b
@@ -588,6 +612,12 @@ func (c *TermCtx) Extract(a *Term, lo, w int) *Term {
 func (c *TermCtx) Concat(hi, lo *Term) *Term {
 	if hi.isConst() && lo.isConst() {
 		return c.Const(hi.w+lo.w, hi.cv()<<uint(lo.w)|lo.cv())
+	}
+	if hi.isConst() && hi.cv() == 0 {
+		if lo.op == opZext {
+			return c.Zext(lo.args[0], hi.w+lo.w)
+		}
+		return c.Zext(lo, hi.w+lo.w)
 	}
 	// concat(extract(x, k+n, m), extract(x, k, n)) = extract(x, k, n+m)
 	if hi.op == opExtract && lo.op == opExtract && hi.args[0] == lo.args[0] && int(hi.c) == int(lo.c)+lo.w {
